@@ -151,6 +151,21 @@ def ob_hub_proxy(ctx):
 OBLIGATIONS = [('remove_n%d' % n, ob_remove(n)) for n in (1, 2, 3, 4)] + [('hub_redelegate_proxy', ob_hub_proxy), ('add_validator_n1', ob_add_validator(1))]
 
 
+def _bond_registered(ctx):
+    """subsequent bonds are delegated only to registered validators (and in full): C02's bond obligation with two validators"""
+    from checks.c02 import mk as mk2
+    return mk2('bond', 2, 1)(ctx)
+
+
+def _replay_bond(v, run_scenario):
+    from checks.c02 import replay_any as r2
+    return r2(v, run_scenario)
+
+
+OBLIGATIONS.append(('bonds_only_to_registered_v2', _bond_registered))
+REPLAY = {'bonds_only_to_registered_v2': _replay_bond}
+
+
 def tier_filter(name, tier):
     return tier == 'thorough' or name != 'remove_n4'
 
